@@ -25,13 +25,14 @@ def template_value_preserved : Prop :=
   ∀ (strict : Bool) (s : List Nat), s.head? = some 96 → wfLit strict s →
     decodeLit strict (templateLit s) = decodeLit strict s
 
-/-- proved for every literal whose body contains no backslash followed by `0` (`NoNul`: decidable, closed under
-    suffixes) — that is, everything except `\0` and the escapes `\00`, `\000`, `\0d…` that start with it.  Covered: every
-    quote choice incl. the switch to a template and its gate, quote and `${` escaping, `\xHH`, `\uHHHH` and `\u{…}`
-    (decoded to UTF-8, re-escaped or kept), the legacy octal escapes `\1`…`\377` (decoded, re-escaped, rewritten to
-    `\xHH`, or kept as `\74`), `\8` `\9`, line continuations, `\n` `\r` `\t` `\b` `\f` `\v`, identity escapes, raw UTF-8, raw
-    CR / LF / CRLF in templates, the `</script>` guard.  The NUL escapes (the `afterNul` logic of the code) are covered
-    by the exhaustive correspondence + V8 oracle of the harness, not by this theorem. -/
+/-- proved for every literal in which `\0` only occurs at the end of the body or in front of a raw byte that is
+    neither a digit nor a backslash (`NoNul`: decidable, closed under suffixes) — that is, everything except `\00`,
+    `\000`, `\0d…` and a `\0` directly followed by a digit or by another escape sequence.  Covered: every quote choice
+    incl. the switch to a template and its gate, quote and `${` escaping, `\xHH`, `\uHHHH` and `\u{…}` (decoded to UTF-8,
+    re-escaped or kept), the legacy octal escapes `\1`…`\377` (decoded, re-escaped, rewritten to `\xHH`, or kept as
+    `\74`), `\8` `\9`, `\0`, line continuations, `\n` `\r` `\t` `\b` `\f` `\v`, identity escapes, raw UTF-8, raw CR / LF / CRLF
+    in templates, the `</script>` guard.  The seam after `\0` (the `afterNul` logic of the code) is covered by the
+    exhaustive correspondence + V8 oracle of the harness, not by this theorem. -/
 theorem string_value_preserved_partial (strict allowTemplate : Bool) (s : List Nat)
     (hq : s.head? = some 39 ∨ s.head? = some 34) (hw : wfLit strict s)
     (hg : NoNul ((s.drop 1).dropLast) = true) :
